@@ -21,7 +21,8 @@ RULE = ("Case = destination kind (recorder probe, Input, Counter, two-state FSM;
         "ExtEvent default source (absent, plain, prefixed, generated text) x termination kind (shutdown(), "
         "abort(exc), failing event handler, Event.abort() control event) x one send attempt per lifecycle phase "
         "(not started, task created, initialising with an init_async in progress, running x3, aborting, "
-        "cleaning up with a stop_async in progress, finished), each with a generated data shape: value positional / "
+        "cleaning up with a stop_async in progress, finished; optionally also after a start that edzed refused "
+        "because of an eager task factory), each with a generated data shape: value positional / "
         "keyword / absent, source absent / text (incl. '', '_ext_', '_ext_x', 'x_ext_', unicode) / non-string, "
         "extra items; plus a user block with a generated name acting as internal event source. "
         "Non-trivial = every case (all seven phases are exercised); distinct by descriptor.")
@@ -90,7 +91,7 @@ PHASES = ['not started', 'task created', 'initialising', 'running', 'running', '
 def cases(draw):
     dest = draw(st.sampled_from(['rec', 'input', 'counter', 'fsm']))
     shapes = []
-    for _ in PHASES:
+    for _ in PHASES + ['failed start']:
         sh = draw(shape_st)
         if dest == 'input' and sh['value'] == 'absent':
             sh = dict(sh, value='kw')
@@ -100,7 +101,8 @@ def cases(draw):
             'termination': draw(st.sampled_from(['shutdown', 'abort', 'handler', 'ctrl_abort', 'ctrl_shutdown'])),
             'sender_name': draw(st.one_of(st.sampled_from(['snd', '_ext_', '_ext_x', 'x_ext_', '_x', 'ext_', 'a b']),
                                           st.text(min_size=0, max_size=6))),
-            'finalize_first': draw(st.booleans()), 'shapes': shapes}
+            'finalize_first': draw(st.booleans()), 'eager_attempt': draw(st.integers(0, 3)) == 0,
+            'shapes': shapes}
 
 
 def strategy(tier):
@@ -177,7 +179,7 @@ def execute(case):
             if isinstance(out[1], tuple):
                 out[1] = list(out[1])
             obs['attempts'].append({
-                'phase': phase, 'ready': circuit.is_ready(), 'out': out,
+                'phase': phase, 'shape': sh, 'ready': circuit.is_ready(), 'out': out,
                 'seen': seen[n_seen:], 'rec_growth': len(reclog) - n_rec,
                 'state_before': state_before, 'state_after': (dest.output, getattr(dest, 'state', None)),
                 'sent': dict(data), 'args': args})
@@ -185,6 +187,19 @@ def execute(case):
         if case['finalize_first']:
             circuit.finalize()
         attempt('not started')
+        if case.get('eager_attempt'):
+            # a start refused by edzed (eager task factory): the circuit is still not running
+            loop.set_task_factory(asyncio.eager_task_factory)
+            try:
+                await circuit.run_forever()
+                obs['eager_start'] = 'returned'
+            except RuntimeError:
+                obs['eager_start'] = 'refused'
+            except BaseException as err:
+                obs['eager_start'] = type(err).__name__
+            finally:
+                loop.set_task_factory(None)
+            attempt('failed start')
         task = asyncio.create_task(circuit.run_forever())
         attempt('task created')
         await asyncio.sleep(0)
@@ -254,7 +269,10 @@ def execute(case):
     default = '_ext_' if case['default_source'] is None else prefixed(case['default_source'])
     count = 0           # Counter model
     fsm = 'a'
-    for k, (a, sh) in enumerate(zip(obs['attempts'], case['shapes'])):
+    if case.get('eager_attempt') and obs.get('eager_start') != 'refused':
+        res.fail('C14.eager_start', f"run_forever() with an eager task factory: {obs.get('eager_start')}")
+    for k, a in enumerate(obs['attempts']):
+        sh = a['shape']
         phase = a['phase']
         should = phase in ('initialising', 'running')
         tag = f"attempt {k} ({phase})"
